@@ -132,12 +132,14 @@ impl SymbolBindings {
                 format!("Can't set constant symbol: {}", self.name),
             ));
         }
-        self.has_global = true;
-        if self.items.is_empty() {
-            self.items.push(to_set);
-        } else {
+        if self.has_global && !self.items.is_empty() {
             *self.items.first_mut().unwrap() = to_set;
+        } else {
+            // There is no global value yet: it goes below the local bindings,
+            // if there are any, instead of replacing the outermost of them.
+            self.items.insert(0, to_set);
         }
+        self.has_global = true;
         Ok(())
     }
 
